@@ -65,6 +65,9 @@ pub struct GenCfg {
     /// more source layouts: brackets without spaces, a divert at the end of a content line, stitches addressed
     /// by their bare name from inside their knot, two conditions on a choice
     pub layout_variants: bool,
+    /// sometimes leave out the choice that keeps a re-entrant section alive: the story then legitimately runs out
+    /// of content on some paths (an error the engine must report)
+    pub allow_runout: bool,
 }
 
 impl GenCfg {
@@ -112,6 +115,7 @@ impl GenCfg {
             nested_functions: false,
             choice_tags: false,
             layout_variants: false,
+            allow_runout: false,
         }
     }
     /// everything, including the nondeterministic-looking features (for lockstep oracles)
@@ -1022,7 +1026,9 @@ impl<'a> Builder<'a> {
         // a section that can be entered more than once must always offer something: a sticky unconditional
         // choice or a sticky fallback (otherwise the story legitimately runs out of content)
         let _ = any_sticky;
-        if loops {
+        if loops && self.cfg.allow_runout && self.rng.chance(1, 3) {
+            // no guarantee: once the choices are used up this section has nothing to offer
+        } else if loops {
             if cfg.fallback && self.rng.chance(1, 2) {
                 let mut body = vec![];
                 if self.rng.chance(1, 2) {
